@@ -389,6 +389,7 @@ META = (META[0] + ' SHIFT (shift counts below the promoted operand width, symbol
 META = (META[0] + ' IT1 (no dereference of a scan cursor without a dominating end test) and PTRCOUNT (pointer parameters indexed strictly below the count) over algorithms, char_traits and C-string helpers.', META[1])
 META = (META[0] + " SUB (sub-span pairs stay inside the span); IT1n (counted ranges are touched only where count > 0); RAWDIFF (integer midpoint); BOUND follows local pointers and covers the string's const members.", META[1])
 META = (META[0] + ' PRECALL (valid calls never violate the precondition of a member they call internally); IDXLOOP.', META[1])
+META = (META[0] + ' RSTEP (downward scans test the lower bound before each step); NEGMIN (no negation of a value that may be numeric_limits::min(); positive and negative controls in fixtures/arith_pos.hpp).', META[1])
 
 
 def run(chk, tier):
@@ -456,6 +457,13 @@ def run(chk, tier):
         chk.unknown_instance('RAWDIFF', 'etl::midpoint', 'the integral overload of midpoint was not recognised')
     _IT.index_loop_area(chk, cdb, ['_string_view/', '_string/basic_inplace_string', '_bitset/', '_span/', '_array/'])      # IDXLOOP
     _IT.counted_buffer_area(chk, cdb, ['_string/char_traits', '_cstring/', '_cwchar/', '_strings/cstr', '_algorithm/', '_memory/'])      # PTRCOUNT
+    # ---- RSTEP: downward scans compare the cursor with its lower bound before every step
+    if _IT.rstep_area(chk, cdb, [""]) < 8:
+        chk.analysis_broken("RSTEP: fewer than 8 downward scans found (floor 8)")
+    # ---- NEGMIN: no negation of a value the function itself believes may be numeric_limits::min()
+    from ..rules import arith as _AR
+    _AR.negmin_area(chk, cdb, [""])
+    _AR.positive_controls(chk, D, ("NEGMIN",))
     # ---- PRECALL: valid calls never violate the precondition of a member they call internally
     if c05.precall(chk, D.load("checks")) < 40:
         chk.analysis_broken("PRECALL: fewer than 40 container operations with a contract-table entry found")
